@@ -1,4 +1,5 @@
 use super::scratch::DecoderScratch;
+use crate::common::MAX_BLOCK_SIZE;
 use crate::decoding::errors::ExecuteSequencesError;
 
 /// Take the provided decoder and execute the sequences stored within
@@ -6,9 +7,21 @@ pub fn execute_sequences(scratch: &mut DecoderScratch) -> Result<(), ExecuteSequ
     let mut literals_copy_counter = 0;
     let old_buffer_size = scratch.buffer.len();
     let mut seq_sum = 0;
+    let mut match_sum = 0usize;
 
     for idx in 0..scratch.sequences.len() {
         let seq = scratch.sequences[idx];
+
+        // A block must not regenerate more than MAX_BLOCK_SIZE bytes. Check before copying
+        // anything so a hostile block can not inflate the decode buffer.
+        // All literals end up in the output, so only the match lengths need to be summed up.
+        match_sum += seq.ml as usize;
+        if scratch.literals_buffer.len() + match_sum > MAX_BLOCK_SIZE as usize {
+            return Err(ExecuteSequencesError::BlockTooLarge {
+                size: scratch.literals_buffer.len() + match_sum,
+                max: MAX_BLOCK_SIZE as usize,
+            });
+        }
 
         if seq.ll > 0 {
             let high = literals_copy_counter + seq.ll as usize;
